@@ -456,26 +456,134 @@ def _run(chk, wd, proved):
     for i in bad[:5]:
         chk.violation({'kind': 'model and implementation disagree', 'part': 'parse-time environment merge',
                        'case': repr(pmeta[i])}, nofail=True)
+    n_cfg_child = config_child_stream(chk, S, wd)
     # the real fork/exec of the configured command, in both tiers (skipped gracefully when fork is unavailable)
     smoke = '; '.join(fork_smoke(chk, wd, v) for v in ('full', 'falsy'))
 
     if not proved:
         chk.violation({'kind': 'proof obligation no longer checks', 'detail': chk.proof_failure,
                        'file': 'coq/props/C18.v'}, nofail=not chk.violations)
-    cov['evaluations'] = n_child + len(dcases) + len(pcases)
+    cov['evaluations'] = n_child + len(dcases) + len(pcases) + 2 * n_cfg_child
     cov['distinct_nontrivial'] = len(distinct)
-    cov['traces_validated_against_impl'] = n_child + len(dcases) + len(pcases)
+    cov['traces_validated_against_impl'] = n_child + len(dcases) + len(pcases) + 2 * n_cfg_child
     cov['exhaustive'] = True
     cov['rule'] = ('%d configurations x every decision path of every oracle (at each call site reached: succeed, '
                    'OSError, other exception; grid C also a second and an unknown errno and a BaseException), each path '
                    'also evaluated in the model with every unreached site failing; %d child runs, %d drop_privileges '
-                   'runs, %d parsed configurations; distinct = distinct (call, outcome kind) logs with ending; every one '
-                   'contains at least the descriptor set-up'
-                   % (n_cfg, n_child, len(dcases), len(pcases)))
+                   'runs, %d parsed configurations; %d processes of numprocs programs from real config text (%%(ENV_X)s, %%(here)s, '
+                   'process_num; file loaded by absolute, relative and bare path) through the real parser, get_execv_args and '
+                   'child path; distinct = distinct (call, outcome kind) logs with ending; every one contains at least the '
+                   'descriptor set-up'
+                   % (n_cfg, n_child, len(dcases), len(pcases), n_cfg_child))
     cov['samples'] = [{'cfg': g[1], 'oracle': g[5][j][0], 'log': _log(g[5][j][1]), 'ending': g[5][j][2]}
                       for g, j in ((gmeta[0], 0), (gmeta[len(gmeta) // 2], 3), (gmeta[-1], 7)) if j < len(g[5])] if gmeta else []
     if smoke is not None:
         cov['notes'].append('real fork smoke test: %s' % smoke)
+
+
+
+# ---- configuration text -> what each process is exec'd with (numprocs, %(ENV_X)s, %(here)s)
+
+CONF_ENVIRON = {'APP_ROOT': '/srv/app', 'PATH': '/usr/bin:/bin', 'HOME': '/root'}
+CONF_TEMPLATES = [
+    # (environment=, directory=)  - the PATH="/opt/bin:%(ENV_PATH)s" idiom: a variable of supervisord's own
+    # environment is shadowed and referenced; other options see supervisord's environment overlaid with the
+    # process's own environment= (documented: ENV_ expansions are extended per process)
+    ('APP_ROOT="%(ENV_APP_ROOT)s/inst%(process_num)d",PATH="/opt/bin:%(ENV_PATH)s"', '%(ENV_APP_ROOT)s/%(process_num)d'),
+    ('CONF="%(here)s/etc",N="%(process_num)d",APP_ROOT="%(ENV_APP_ROOT)s/x"', '%(here)s/tmp'),
+    ('PATH="%(ENV_PATH)s:/extra/%(program_name)s"', '%(ENV_HOME)s'),
+    (None, '%(here)s'),
+]
+
+
+def config_child_stream(chk, S, wd):
+    """Real config text -> real ServerOptions -> every process of a numprocs program through the real child
+    path; the same file loaded by absolute path, by a relative path with a directory part and by its bare name."""
+    from supervisor.options import ServerOptions
+    groups_terms, gmeta = [], []
+    confdir = os.path.join(wd, 'cfgtie', 'etc')
+    os.makedirs(confdir, exist_ok=True)
+    conf = os.path.join(confdir, 'supervisord.conf')
+    here = os.path.abspath(confdir)
+    loads = [('absolute', conf, None), ('relative', os.path.join('etc', 'supervisord.conf'), os.path.dirname(confdir)),
+             ('bare', 'supervisord.conf', confdir)]
+    n_proc = 0
+    for ti, (envt, dirt) in enumerate(CONF_TEMPLATES):
+        for numprocs, start in ((1, 0), (2, 0), (3, 5)):
+            lines = ['[supervisord]', 'logfile=%s/s.log' % wd, 'pidfile=%s/s.pid' % wd, 'childlogdir=%s' % wd,
+                     '[program:w]', 'command=/bin/cat -u', 'numprocs=%d' % numprocs, 'numprocs_start=%d' % start,
+                     'process_name=%(program_name)s_%(process_num)d', 'stdout_logfile=NONE', 'stderr_logfile=NONE',
+                     'directory=%s' % dirt]
+            if envt is not None:
+                lines.append('environment=%s' % envt)
+            text = '\n'.join(lines) + '\n'
+            with open(conf, 'w') as f:
+                f.write(text)
+            for (mode, path, cwd) in loads:
+                chk.dist('config_child:%s' % mode)
+                o = ServerOptions()
+                o.environ_expansions = dict(('ENV_' + k, v) for k, v in CONF_ENVIRON.items())   # supervisord's own environment
+                back = os.getcwd()
+                try:
+                    if cwd is not None:
+                        os.chdir(cwd)
+                    o.realize(args=['-c', path, '-n'])
+                finally:
+                    os.chdir(back)
+                o.minfds = 3
+                pconfigs = sorted(o.process_group_configs[0].process_configs, key=lambda pc: pc.name)
+                if [pc.name for pc in pconfigs] != ['w_%d' % n for n in range(start, start + numprocs)]:
+                    chk.violation({'kind': 'unexpected process names from the parser', 'names': [pc.name for pc in pconfigs]})
+                    continue
+                for n, pc in zip(range(start, start + numprocs), pconfigs):
+                    n_proc += 1
+                    # the reference: every process expands against supervisord's environment, never a sibling's
+                    base = dict(('ENV_' + k, v) for k, v in CONF_ENVIRON.items())
+                    base.update({'here': here, 'program_name': 'w', 'group_name': 'w', 'process_num': n, 'numprocs': numprocs})
+                    want_env = {}
+                    if envt is not None:
+                        for item in envt.split('",'):
+                            k, v = item.split('="', 1)
+                            want_env[k] = (v[:-1] if v.endswith('"') else v) % base
+                    own = dict(base)
+                    own.update(('ENV_' + k, v) for k, v in want_env.items())
+                    want_dir = dirt % own
+                    world = dict(environ=dict(CONF_ENVIRON), curuid=0, pw=None, groups=[], has_setgroups=True)
+                    cfg = dict(name=pc.name, uid=None, file='/bin/cat', argv=['/bin/cat', '-u'], directory=want_dir, umask=None,
+                               environment=want_env, serverurl=None, options_serverurl=None, redirect_stderr=False, minfds=3,
+                               fcgi=False, group='w')
+                    paths = []
+                    for decisions in ([], [None, None, None, None, ('os', ENOENT)]):
+                        orc = S.PathOracle(decisions)
+                        log, ending, k, filename, argv = S.run_child_parsed(pc, 'w', world, orc)
+                        problem = None
+                        if k.unexpected:
+                            problem = 'unmodelled system call %r' % (k.unexpected,)
+                        elif dict(pc.environment or {}) != want_env or pc.directory != want_dir:
+                            problem = ('process %s is configured with environment %r and directory %r; the configuration '
+                                       'means %r and %r' % (pc.name, dict(pc.environment or {}), pc.directory, want_env, want_dir))
+                        elif not decisions and ending != 'exec':
+                            problem = 'no call fails, yet the configured command is not executed (ending %r)' % (ending,)
+                        else:
+                            problem = judge(cfg, world, log, ending, False)
+                        if problem:
+                            chk.violation({'kind': 'C18 fails on the implementation (configuration -> child)', 'what': problem,
+                                           'config': text, 'loaded_as': path, 'cwd': cwd, 'process': pc.name,
+                                           'supervisord_environment': CONF_ENVIRON, 'log': _log(log), 'ending': ending})
+                            break
+                        try:
+                            lterm, ex = compact_log(log, cfg)
+                            paths.append(('(false, %s, %s)' % (lterm, ending_term(ending)), ex, (orc.trail, log, ending)))
+                        except Unmodelled as e:
+                            chk.violation({'kind': 'observable outside the model', 'detail': str(e), 'config': text,
+                                           'process': pc.name}, nofail=True)
+                    if paths:
+                        ex = [p_[1] for p_ in paths if p_[1]]
+                        groups_terms.append('(%s, %s, %s, %s)' % (cfg_term(cfg), world_term(world), ex[0] if ex else 'Setpgrp',
+                                                                 coq_list([p_[0] for p_ in paths])))
+                        gmeta.append(('config_child', cfg, world, False, [p_[0] for p_ in paths], [p_[2] for p_ in paths]))
+    flush_child(chk, wd, groups_terms, gmeta, 'cfgtie')
+    return n_proc
 
 
 def flush_child(chk, wd, groups, gmeta, tag):
